@@ -166,3 +166,42 @@ func harnessC09Concurrent() {
 	}
 	vCover("published")
 }
+
+//verif:entry property=C09 tier=both bounds="K publishes through PublishContext on the bundled MemoryStore (which does not look at the context), each with a context that is live, already cancelled, or ended by its deadline; optional persistence timeout; one record per publish regardless, no persistence error reported" cover="published" K_quick=2 K_thorough=3
+func harnessC09EndedContext() {
+	K := vParam("K", 2)
+	st := NewMemoryStore()
+	reported := 0
+	opts := []Option{WithStore(st), WithPersistenceErrorHandler(func(ev any, t reflect.Type, err error) { reported++ })}
+	if vBool() {
+		opts = append(opts, WithPersistenceTimeout(time.Second))
+	}
+	bus := New(opts...)
+	delivered := 0
+	Subscribe(bus, func(e evA) { delivered++ })
+	live := 0
+	for i := 0; i < K; i++ {
+		ctx, cancel := context.WithCancel(context.Background())
+		switch vInt(0, 2) {
+		case 0:
+			live++
+		case 1:
+			cancel()
+		case 2:
+			var stop context.CancelFunc
+			ctx, stop = context.WithTimeout(ctx, 0)
+			defer stop()
+		}
+		PublishContext(bus, ctx, evA{N: i + 1})
+		cancel()
+	}
+	evs, _, err := st.Read(context.Background(), OffsetOldest, 0)
+	vAssert(err == nil && len(evs) == K, "exactly-one-record-per-publish")
+	for i := range evs {
+		var d evA
+		vAssert(json.Unmarshal(evs[i].Data, &d) == nil && d.N == i+1, "record-decodes-to-published-value")
+	}
+	vAssert(reported == 0, "no-persistence-error-reported")
+	_, _ = delivered, live
+	vCover("published")
+}
